@@ -606,6 +606,17 @@ fn primitive_spaces(thorough: bool) -> Vec<(Spec, Vec<V>)> {
     v.push((Spec::So3 { bounds: Some(([0.0, 0.0, 0.0, 1.0], 1.0)), frac: None }, so3_lattice(thorough)));
     v.push((Spec::So3 { bounds: Some((crate::catalog::quat_axis_angle([1.0, 0.0, 0.0], 90.0), 2.0)), frac: None }, so3_lattice(thorough)));
     v.push((Spec::Rv { dim: 2, bounds: Some(vec![(-1.0, 1.0), (0.0, 0.5)]), frac: None }, rv_lattice(2)));
+    // spaces whose motion-check resolution was set through the public setter: distance and interpolation
+    // are the manifold's, whatever the resolution says
+    for f in [1.0, 0.25] {
+        v.push((Spec::So3 { bounds: None, frac: Some(f) }, so3_lattice(thorough)));
+        v.push((Spec::So2 { bounds: None, frac: Some(f) }, so2_lattice(thorough)));
+    }
+    v.push((Spec::Rv { dim: 3, bounds: Some(vec![(-1.0, 1.0), (0.0, 0.5), (0.0, 9.0)]), frac: Some(1.0) }, rv_lattice(3)));
+    // dimensions beyond one SIMD block and a tail
+    for n in [8usize, 9, 13] {
+        v.push((Spec::Rv { dim: n, bounds: None, frac: None }, rv_lattice(n)));
+    }
     v
 }
 
